@@ -60,14 +60,51 @@ func rect(m, n int) *mat.Dense {
 	return a
 }
 
-// get returns the factorizations of order n.
-func (facByN facCache) get(n int) *factors {
-	if f, ok := facByN[n]; ok {
+// Value classes of the factorised matrix (and, in exec.go, of the operand
+// that a method inverts or factorises): they drive the error paths.
+const (
+	vcWell     = 0 // well conditioned: no error
+	vcIll      = 1 // condition number about 1e17: a finite Condition error, the result is still computed
+	vcSingular = 2 // exactly singular / not positive definite: Condition(+Inf) or another error, the result is undefined
+)
+
+const illScale = 3e-17
+
+// get returns the factorizations of order n for value class vc.
+func (facByN facCache) get(n, vc int) *factors {
+	key := n*4 + vc
+	if f, ok := facByN[key]; ok {
 		return f
 	}
 	f := &factors{qr: map[int]*mat.QR{}, lq: map[int]*mat.LQ{}}
+	scale := 1.0
+	switch vc {
+	case vcIll:
+		scale = illScale
+	case vcSingular:
+		scale = 0
+	}
+	a := rect(n, n)
+	for j := 0; j < n; j++ {
+		a.Set(n-1, j, a.At(n-1, j)*scale)
+	}
+	f.lu.Factorize(a)
+	// Cholesky family: a singular matrix cannot be factorised at all (SolveTo
+	// would panic), so the singular class reuses the ill conditioned matrix;
+	// PivotedCholesky rejects both (rank tolerance), it keeps the well
+	// conditioned one.
 	s := spd(n)
-	f.lu.Factorize(rect(n, n))
+	if !f.pchol.Factorize(s, -1) {
+		panic("c05: pivoted cholesky failed")
+	}
+	d := 1.0
+	if vc != vcWell {
+		d = 1e-9
+	}
+	for i := 0; i < n-1; i++ {
+		s.SetSym(i, n-1, s.At(i, n-1)*d)
+	}
+	s.SetSym(n-1, n-1, s.At(n-1, n-1)*d*d)
 	if !f.chol.Factorize(s) {
 		panic("c05: cholesky of SPD matrix failed")
 	}
@@ -77,34 +114,51 @@ func (facByN facCache) get(n int) *factors {
 	}
 	sb := mat.NewSymBandDense(n, k, nil)
 	for i := 0; i < n; i++ {
-		sb.SetSymBand(i, i, float64(n)+2)
+		v := float64(n) + 2
+		if i == n-1 {
+			v *= d * d
+		}
+		sb.SetSymBand(i, i, v)
 		if i+1 < n && k > 0 {
-			sb.SetSymBand(i, i+1, 0.5)
+			o := 0.5
+			if i+1 == n-1 {
+				o *= d
+			}
+			sb.SetSymBand(i, i+1, o)
 		}
 	}
 	if !f.bchol.Factorize(sb) {
 		panic("c05: band cholesky failed")
 	}
-	if !f.pchol.Factorize(s, -1) {
-		panic("c05: pivoted cholesky failed")
-	}
 	for m := n; m <= n+2; m++ {
+		r := rect(m, n)
+		for i := 0; i < m; i++ {
+			r.Set(i, n-1, r.At(i, n-1)*scale)
+		}
 		q := new(mat.QR)
-		q.Factorize(rect(m, n))
+		q.Factorize(r)
 		f.qr[m] = q
 	}
 	for m := 1; m <= n; m++ {
+		r := rect(m, n)
+		for j := 0; j < n; j++ {
+			r.Set(m-1, j, r.At(m-1, j)*scale)
+		}
 		l := new(mat.LQ)
-		l.Factorize(rect(m, n))
+		l.Factorize(r)
 		f.lq[m] = l
 	}
 	f.tri = mat.NewTriDense(n, mat.Upper, nil)
 	for i := 0; i < n; i++ {
 		for j := i; j < n; j++ {
-			f.tri.SetTri(i, j, rect(n, n).At(i, j))
+			v := rect(n, n).At(i, j)
+			if i == n-1 {
+				v *= scale
+			}
+			f.tri.SetTri(i, j, v)
 		}
 	}
-	facByN[n] = f
+	facByN[key] = f
 	return f
 }
 
@@ -113,29 +167,45 @@ var bOnly = []string{"b"}
 // Matrix forms: recv is dst (*mat.Dense). cs.n is the order of the
 // factorised matrix (columns of A); cs.idx[0] its number of rows for QR/LQ.
 var (
-	mLUSolveTo    = &method{name: "LU.SolveTo", pos: bOnly, toStyle: true, call: func(r any, o []mat.Matrix, cs *caseSpec) { _ = cs.fac.get(cs.n).lu.SolveTo(dn(r), cs.trans, o[0]) }}
-	mCholSolveTo  = &method{name: "Cholesky.SolveTo", pos: bOnly, toStyle: true, call: func(r any, o []mat.Matrix, cs *caseSpec) { _ = cs.fac.get(cs.n).chol.SolveTo(dn(r), o[0]) }}
-	mBCholSolveTo = &method{name: "BandCholesky.SolveTo", pos: bOnly, toStyle: true, call: func(r any, o []mat.Matrix, cs *caseSpec) { _ = cs.fac.get(cs.n).bchol.SolveTo(dn(r), o[0]) }}
-	mPCholSolveTo = &method{name: "PivotedCholesky.SolveTo", pos: bOnly, toStyle: true, call: func(r any, o []mat.Matrix, cs *caseSpec) { _ = cs.fac.get(cs.n).pchol.SolveTo(dn(r), o[0]) }}
-	mTriSolveTo   = &method{name: "TriDense.SolveTo", pos: bOnly, toStyle: true, call: func(r any, o []mat.Matrix, cs *caseSpec) { _ = cs.fac.get(cs.n).tri.SolveTo(dn(r), cs.trans, o[0]) }}
-	mQRSolveTo    = &method{name: "QR.SolveTo", pos: bOnly, toStyle: true, call: func(r any, o []mat.Matrix, cs *caseSpec) {
-		_ = cs.fac.get(cs.n).qr[cs.idx[0]].SolveTo(dn(r), cs.trans, o[0])
+	mLUSolveTo = &method{name: "LU.SolveTo", pos: bOnly, toStyle: true, call: func(r any, o []mat.Matrix, cs *caseSpec) {
+		cs.status = errClass(cs.fac.get(cs.n, cs.vclass).lu.SolveTo(dn(r), cs.trans, o[0]))
+	}}
+	mCholSolveTo = &method{name: "Cholesky.SolveTo", pos: bOnly, toStyle: true, call: func(r any, o []mat.Matrix, cs *caseSpec) {
+		cs.status = errClass(cs.fac.get(cs.n, cs.vclass).chol.SolveTo(dn(r), o[0]))
+	}}
+	mBCholSolveTo = &method{name: "BandCholesky.SolveTo", pos: bOnly, toStyle: true, call: func(r any, o []mat.Matrix, cs *caseSpec) {
+		cs.status = errClass(cs.fac.get(cs.n, cs.vclass).bchol.SolveTo(dn(r), o[0]))
+	}}
+	mPCholSolveTo = &method{name: "PivotedCholesky.SolveTo", pos: bOnly, toStyle: true, call: func(r any, o []mat.Matrix, cs *caseSpec) {
+		cs.status = errClass(cs.fac.get(cs.n, cs.vclass).pchol.SolveTo(dn(r), o[0]))
+	}}
+	mTriSolveTo = &method{name: "TriDense.SolveTo", pos: bOnly, toStyle: true, call: func(r any, o []mat.Matrix, cs *caseSpec) {
+		cs.status = errClass(cs.fac.get(cs.n, cs.vclass).tri.SolveTo(dn(r), cs.trans, o[0]))
+	}}
+	mQRSolveTo = &method{name: "QR.SolveTo", pos: bOnly, toStyle: true, call: func(r any, o []mat.Matrix, cs *caseSpec) {
+		cs.status = errClass(cs.fac.get(cs.n, cs.vclass).qr[cs.idx[0]].SolveTo(dn(r), cs.trans, o[0]))
 	}}
 	mLQSolveTo = &method{name: "LQ.SolveTo", pos: bOnly, toStyle: true, call: func(r any, o []mat.Matrix, cs *caseSpec) {
-		_ = cs.fac.get(cs.n).lq[cs.idx[0]].SolveTo(dn(r), cs.trans, o[0])
+		cs.status = errClass(cs.fac.get(cs.n, cs.vclass).lq[cs.idx[0]].SolveTo(dn(r), cs.trans, o[0]))
 	}}
 
 	mLUSolveVecTo = &method{name: "LU.SolveVecTo", pos: bOnly, toStyle: true, call: func(r any, o []mat.Matrix, cs *caseSpec) {
-		_ = cs.fac.get(cs.n).lu.SolveVecTo(vd(r), cs.trans, vv(o[0]))
+		cs.status = errClass(cs.fac.get(cs.n, cs.vclass).lu.SolveVecTo(vd(r), cs.trans, vv(o[0])))
 	}}
-	mCholSolveVecTo  = &method{name: "Cholesky.SolveVecTo", pos: bOnly, toStyle: true, call: func(r any, o []mat.Matrix, cs *caseSpec) { _ = cs.fac.get(cs.n).chol.SolveVecTo(vd(r), vv(o[0])) }}
-	mBCholSolveVecTo = &method{name: "BandCholesky.SolveVecTo", pos: bOnly, toStyle: true, call: func(r any, o []mat.Matrix, cs *caseSpec) { _ = cs.fac.get(cs.n).bchol.SolveVecTo(vd(r), vv(o[0])) }}
-	mPCholSolveVecTo = &method{name: "PivotedCholesky.SolveVecTo", pos: bOnly, toStyle: true, call: func(r any, o []mat.Matrix, cs *caseSpec) { _ = cs.fac.get(cs.n).pchol.SolveVecTo(vd(r), vv(o[0])) }}
-	mQRSolveVecTo    = &method{name: "QR.SolveVecTo", pos: bOnly, toStyle: true, call: func(r any, o []mat.Matrix, cs *caseSpec) {
-		_ = cs.fac.get(cs.n).qr[cs.idx[0]].SolveVecTo(vd(r), cs.trans, vv(o[0]))
+	mCholSolveVecTo = &method{name: "Cholesky.SolveVecTo", pos: bOnly, toStyle: true, call: func(r any, o []mat.Matrix, cs *caseSpec) {
+		cs.status = errClass(cs.fac.get(cs.n, cs.vclass).chol.SolveVecTo(vd(r), vv(o[0])))
+	}}
+	mBCholSolveVecTo = &method{name: "BandCholesky.SolveVecTo", pos: bOnly, toStyle: true, call: func(r any, o []mat.Matrix, cs *caseSpec) {
+		cs.status = errClass(cs.fac.get(cs.n, cs.vclass).bchol.SolveVecTo(vd(r), vv(o[0])))
+	}}
+	mPCholSolveVecTo = &method{name: "PivotedCholesky.SolveVecTo", pos: bOnly, toStyle: true, call: func(r any, o []mat.Matrix, cs *caseSpec) {
+		cs.status = errClass(cs.fac.get(cs.n, cs.vclass).pchol.SolveVecTo(vd(r), vv(o[0])))
+	}}
+	mQRSolveVecTo = &method{name: "QR.SolveVecTo", pos: bOnly, toStyle: true, call: func(r any, o []mat.Matrix, cs *caseSpec) {
+		cs.status = errClass(cs.fac.get(cs.n, cs.vclass).qr[cs.idx[0]].SolveVecTo(vd(r), cs.trans, vv(o[0])))
 	}}
 	mLQSolveVecTo = &method{name: "LQ.SolveVecTo", pos: bOnly, toStyle: true, call: func(r any, o []mat.Matrix, cs *caseSpec) {
-		_ = cs.fac.get(cs.n).lq[cs.idx[0]].SolveVecTo(vd(r), cs.trans, vv(o[0]))
+		cs.status = errClass(cs.fac.get(cs.n, cs.vclass).lq[cs.idx[0]].SolveVecTo(vd(r), cs.trans, vv(o[0])))
 	}}
 )
 
